@@ -167,4 +167,13 @@ PROPS = {
         "assumptions": ["concurrent requests are parked only at the repository's yield points (before the object lock, just inside it, right after its release, and — tear scenario — between the file store's content write and sidecar write)",
                         "symbolic conditions (generation = current) of the concurrent requests are resolved against the state after the sequential prefix, on both sides"],
     },
+    "C18": {
+        "lean": "Emu.Props.C18",
+        "diffs": [
+            {"cmd": "btscan", "scenario": "c18", "quick": 10, "thorough": 300, "no_corpus": True},
+        ],
+        "facts": [],
+        "trusted": BT_TRUST + ["a goleveldb iterator is a snapshot of the store taken when it is created (this is what the correspondence run checks from outside: rows after the scan position keep their pre-write state within a range, later ranges see the writes)"],
+        "assumptions": ["writes are issued from inside the harness's own stream.Send, i.e. exactly in the windows in which the scan has released the table lock; the btree engine is excluded (it documents that it does not offer this)"],
+    },
 }
